@@ -35,6 +35,11 @@ atom("o_psl_deep", "origins", "valid", ["https://*.k12.ma.us", "https://*.pvt.k1
 # a public-suffix wildcard SHADOWED by a broader wildcard of a registrable (non-suffix) parent domain listed before it
 atom("o_wild_aws", "origins", "valid", ["https://*.amazonaws.com:*", "https://*.amazonaws.com"], wild=True)
 atom("o_psl_aws", "origins", "valid", ["https://*.s3.amazonaws.com", "https://*.us-east-1.compute.amazonaws.com"], wild=True, psl=True)
+# internationalized public suffixes in the A-label form the library requires: multi-label (`xn--55qx5d.cn` = 公司.cn), a suffix made of
+# A-labels only, single-label IDN TLDs; classification confirmed with golang.org/x/net/publicsuffix (seeded/C05-10)
+atom("o_psl_idn", "origins", "valid", ["https://*.xn--55qx5d.cn", "https://*.xn--io0a7i.cn.", "https://*.xn--55qx5d.hk:*", "https://*.xn--12c1fe0br.xn--o3cw4h",
+                                       "https://*.xn--p1ai", "https://*.xn--fiqs8s:8443", "https://*.xn--od0alg.cn"], wild=True, psl=True)
+atom("o_wild_idn", "origins", "valid", ["https://*.foo.xn--55qx5d.cn", "https://*.xn--bcher-kva.example", "https://*.xn--bcher-kva.xn--p1ai:*", "https://*.xn--uc0atv.tw"], wild=True)
 # look-alikes that are NOT public suffixes: exception rules of the list (`!www.ck`, `!city.kobe.jp`) and registrable domains under deep suffixes
 atom("o_wild_notpsl", "origins", "valid", ["https://*.www.ck", "https://*.city.kobe.jp", "https://*.school.pvt.k12.ma.us",
                                            "https://*.compute.amazonaws.com", "https://*.blogspot.co.uk", "https://*.sch.uk"], wild=True)
